@@ -208,3 +208,103 @@ theorem c13_cors_generic (clients : List Client) (s : List Char)
       exact ⟨u, hu, hs', ⟨c, hc, d, hd, h1, h3⟩, browser_agrees hu hs' h2⟩
 
 end KM.Redirect
+
+/-! ### the pinned tree, witnesses and non-vacuity -/
+namespace KM.Redirect
+
+def exDomains : Client := { id := "dom".toList, domains := ["example.com".toList], patterns := [] }
+def exPatterns : Client := { id := "docre".toList, domains := [], patterns := ["docs".toList] }
+def exEmptyDomain : Client := { id := "odd".toList, domains := [[]], patterns := [] }
+/-- an oracle under which every pattern matches (the harness replays the witnesses with real regexps) -/
+def reYes : List Char → List Char → Option Bool := fun _ _ => some true
+
+/-- the validator as found is **not** safe:
+* the suffix test without label boundary accepts `https://evilexample.com/cb` for the domain `example.com`;
+* an empty configured domain accepts every https host;
+* a URL that Go parses without host (`https:/evil.example\.example.com/`, which the regexp of
+  docs/website/openidc-idp.md matches) is accepted for a patterns-only client although a browser
+  navigates to `evil.example`. -/
+theorem c13_unfixed_counterexample :
+    (canRedirectOld reYes exDomains "https://evilexample.com/cb".toList = .accept ∧
+      browserHost "https://evilexample.com/cb".toList = .domain "evilexample.com".toList ∧
+      hostMatches "evilexample.com".toList "example.com".toList = false) ∧
+    (canRedirectOld reYes exEmptyDomain "https://evil.example/".toList = .accept) ∧
+    (canRedirectOld reYes exPatterns "https:/evil.example\\.example.com/".toList = .accept ∧
+      (goParse "https:/evil.example\\.example.com/".toList).map (·.host) = some [] ∧
+      browserHost "https:/evil.example\\.example.com/".toList = .domain "evil.example".toList) := by
+  decide
+
+/-- the repaired validator refuses all three -/
+theorem c13_fixed_witnesses :
+    canRedirect reYes exDomains "https://evilexample.com/cb".toList = .reject ∧
+    canRedirect reYes exEmptyDomain "https://evil.example/".toList = .reject ∧
+    canRedirect reYes exPatterns "https:/evil.example\\.example.com/".toList = .reject := by
+  decide
+
+/-- non-vacuity: ordinary redirect URIs are accepted, and Go and the browser see the same host -/
+example : canRedirect reYes exDomains "https://www.example.com:443/cb".toList = .accept ∧
+    browserHost "https://www.example.com:443/cb".toList = .domain "www.example.com".toList ∧
+    canRedirect reYes exDomains "https://example.com".toList = .accept ∧
+    canRedirect reYes exPatterns "https://u:p@App.example.net/x#f".toList = .accept ∧
+    browserHost "https://u:p@App.example.net/x#f".toList = .domain "app.example.net".toList := by
+  decide
+
+/-- the three results of `browserHost` in `c13_string` all occur on accepted strings: a host with a port the
+browser refuses, a domain, an IPv6 literal -/
+example : canRedirect reYes exPatterns "https://www.example.com:99999/".toList = .accept ∧
+    browserHost "https://www.example.com:99999/".toList = .fail ∧
+    canRedirect reYes exPatterns "https://[::1]:8443/cb".toList = .accept ∧
+    browserHost "https://[::1]:8443/cb".toList = .ipv6 "::1".toList := by
+  decide
+
+/-- strings on which Go and a browser see different hosts exist, and every one of them is refused:
+user-info tricks, backslashes, tab in the host, missing slashes -/
+example :
+    (["https://good.example.com@evil.example/", "https://evil.example\\@good.example.com/",
+      "https://good.example.com\\@evil.example/", "https://evil.example#@good.example.com/",
+      "https:/\\evil.example/.example.com/", "https:\\\\evil.example/.example.com",
+      "https://evil.example\\.example.com/", "https://ww\tw.evil.example/.example.com",
+      "https://evil.example%2f.example.com/", "https://evil.example%23.example.com/"].map
+        (fun s => canRedirect reYes exDomains s.toList)).all (· != .accept) = true := by
+  decide
+
+end KM.Redirect
+
+/-! ### the source of the current tree (regenerated tables) -/
+namespace KM.Redirect
+open KM.RedirectSite KM.Gen.C13
+
+/-- **Sites**: the statements of `CanRedirectToURL`, `CorsOriginAllowed` and
+`idpOpenIDCGenericIsCorsOriginAllowed` are, in this order, exactly the tests that `decide`, `corsAllowed`
+and `genericCorsAllowed` mirror (scheme literal "https", the `RawQuery` test, the ".." literal, the host
+test); every comparison of a parsed host with a configured domain in cmd/keymasterd goes through the
+label-boundary helper, whose text is the one `hostMatches` mirrors; and in the authorize handler the client
+comes from `idpOpenIDCGetClientConfig`, both failure branches of `CanRedirectToURL` return, and the only
+redirect of the function appends `?code=…` to the validated, never re-assigned variable. -/
+theorem c13_sites :
+    canRedirectSteps = [
+      .noConfigReject, .flagInit "matchedRE".toList false, .reLoop, .parse, .parseErrReject,
+      .schemeNeReject https, .rawQueryReject, .pathContainsReject ['.', '.'], .hostEmptyReject,
+      .noDomainsReturnRE, .noPatternsSetRE, .flagInit "matchedDomain".toList false,
+      .domainLoop .dotBoundary, .returnBoth] ∧
+    corsSteps = [.parse, .parseErrReject, .schemeNeReject https, .domainLoopReturnTrue .dotBoundary, .returnFalse] ∧
+    genericCorsSteps = [.parse, .parseErrReject, .schemeNeReject https,
+      .clientsDomainLoopReturnTrue .dotBoundary, .returnFalse] ∧
+    hostSites.length = 3 ∧ hostSites.all (fun s => s.2 == HostCmp.dotBoundary) = true ∧
+    hostHelper = [
+      ("domain == \"\" || host == \"\"".toList, "false".toList),
+      ("host == domain".toList, "true".toList),
+      ("strings.HasPrefix(domain, \".\")".toList, "strings.HasSuffix(host, domain)".toList),
+      ("".toList, "strings.HasSuffix(host, \".\"+domain)".toList)] ∧
+    authorize = {
+      lookupCall := "oidcClient, err := state.idpOpenIDCGetClientConfig(clientID)".toList,
+      lookupErrReturns := true,
+      validateCall := "ok, parsedRedirectURL, err := oidcClient.CanRedirectToURL(requestRedirectURLString)".toList,
+      validatedVar := "requestRedirectURLString".toList,
+      errGuardReturns := true, okGuardReturns := true, varAssignments := 1, redirectCalls := 1,
+      redirectFmt := "%s?code=%s&state=%s".toList,
+      redirectFirstArg := "requestRedirectURLString".toList,
+      orderOK := true } := by
+  decide
+
+end KM.Redirect
